@@ -121,6 +121,12 @@ def cases(tier, seed):
                 out.append({'conv': True, 'model': model, 'solver': solver, 'method': None, 'backend': backend,
                             'vectorize': backend != 'default', 'dt': 2.0 ** -6, 'dts': 2.0 ** -3, 'T': 1.0,
                             'cutoff': 0.0, 'cut': 'zero'})
+    # complex-valued state (float_precision='complex128'): the iterates keep their imaginary part
+    for backend, solvers_b in (('default', ('euler', 'heun', 'scipy')), ('torch', ('euler',)), ('jax', ('euler', 'heun'))):
+        for solver in solvers_b:
+            for mult in (1, 2):
+                out.append({'complex': True, 'model': 'cplx', 'solver': solver, 'method': None, 'backend': backend,
+                            'vectorize': False, 'dt': 0.0625, 'dts': 0.0625 * mult, 'T': 1.0, 'cutoff': 0.0, 'cut': 'zero'})
     if tier != 'quick':
         for model in ('decay', 'rot', 'edge', 'tdep'):
             for g in grid(tier)[::9]:
@@ -131,7 +137,7 @@ def cases(tier, seed):
 def describe(tier, seed):
     return {'rule': 'full lattice model{decay,rot,edge,inp,tdep} x solver{euler,heun} x dt x dts/dt{1,2,5} x T/dts{3,4,7} '
                     'x cutoff{0,on-grid,between,last,beyond} on binary-fraction grids (default backend), slices for '
-                    'scipy methods, torch and jax solvers; oracle: own Euler/Heun loop over the get_run_func vector field '
+                    'scipy methods, torch and jax solvers, a complex-valued rotation per backend and solver; oracle: own Euler/Heun loop over the get_run_func vector field '
                     'of an identically built template (exact to 1e-12), closed forms for adaptive solvers; '
                     'non-trivial = at least one stored row after the first; distinct = distinct configuration',
             'bounds': {'rows': 7, 'dts_over_dt': 5}}
@@ -160,7 +166,7 @@ def own_fixed_step(C, solver, dt, steps, store_step, hist_inputs=False):
 def run_case(case):
     from .. import build, impl, pool
     model = case['model']
-    m = MODELS[model]
+    m = MODELS.get(model)
     res = {'evals': 0}
     dt, T, cutoff = case['dt'], case['T'], case['cutoff']
     dts = case['dts']
@@ -177,6 +183,8 @@ def run_case(case):
         return res
     if case.get('conv'):
         return run_conv(case, res, sig, viol)
+    if case.get('complex'):
+        return run_complex(case, res, sig, viol)
     steps = int(round(T / dt))
     inputs = None
     if 'input' in m:
@@ -240,6 +248,49 @@ def run_case(case):
             if got.shape != exp.shape or (len(exp) and np.max(np.abs(got - exp)) > 2e-5 * max(1.0, np.max(np.abs(exp)))):
                 return viol('trajectory_adaptive', var=key, got=got.tolist()[:8], expected=exp.tolist()[:8])
     res['outcome'] = hashlib.sha256(np.asarray(df.values, dtype=float).round(9).tobytes()).hexdigest()[:10]
+    res['ok'] = True
+    return res
+
+
+def run_complex(case, res, sig, viol):
+    """z' = (i*w - k)*z with a complex state: run() must return the complex Euler / Heun iterates"""
+    from pyrates import OperatorTemplate, NodeTemplate, CircuitTemplate
+    w, k, z0 = 2.0, 0.3, 1.0 + 0.5j
+    dt, dts, T = case['dt'], case['dts'], case['T']
+    sig['features'].append('complex_state')
+    op = OperatorTemplate('rot', equations=["z' = i*w*z - k*z"],
+                          variables={'z': f'variable({z0.real}+{z0.imag}j)', 'w': w, 'k': k, 'i': '0.0+1.0j'})
+    circ = CircuitTemplate('c', nodes={'p': NodeTemplate('n', operators=[op])})
+    kw = dict(rtol=1e-9, atol=1e-11) if case['solver'] == 'scipy' else {}
+    try:
+        df = circ.run(simulation_time=T, step_size=dt, sampling_step_size=dts, outputs={'z': 'p/rot/z'},
+                      solver=case['solver'], backend=case['backend'], float_precision='complex128', vectorize=False,
+                      verbose=False, clear=True, **kw)
+        got = np.asarray(df['z'].values).reshape(-1)
+    except Exception as e:
+        sig['exc'] = type(e).__name__
+        return viol('raises', detail=f'{type(e).__name__}: {e}'[:300])
+    f = lambda z: (1j * w - k) * z
+    z, rows = z0, []
+    store = int(round(dts / dt))
+    for n in range(int(round(T / dt))):
+        if n % store == 0:
+            rows.append(z)
+        if case['solver'] == 'euler':
+            z = z + dt * f(z)
+        else:
+            zp = z + dt * f(z)
+            z = z + dt / 2 * (f(z) + f(zp))
+    exp = np.asarray(rows)
+    tol = 1e-10
+    if case['solver'] == 'scipy':
+        exp = z0 * np.exp((1j * w - k) * np.arange(len(rows)) * dts)
+        tol = 1e-6
+    res['evals'] += len(rows)
+    res['nontrivial'] = True
+    if got.shape != exp.shape or not np.iscomplexobj(got) or np.max(np.abs(got - exp)) > tol:
+        return viol('trajectory', var='z', dtype=str(got.dtype), got=[str(v) for v in got[:4]], expected=[str(v) for v in exp[:4]])
+    res['outcome'] = 'complex_' + case['solver']
     res['ok'] = True
     return res
 
